@@ -76,14 +76,18 @@ const (
 	rDialZeroTimeoutClose
 	rDialNegTimeoutClose
 	rDialTwoOptionsClose
+	rDialAnyLiveCtxClose
+	rDialAnyDoneCtxClose
 )
 
-var c18RealNames = map[int]string{rDialOk: "dial-ok", rDialFail: "dial-fail", rCmdOk: "cmd-ok", rCmdLostThenOk: "cmd-lost-then-ok", rTransportClose: "transport-close", rNSOk: "new-session-ok", rSessClose: "session-close", rDialZeroTimeoutClose: "dial-with-zero-timeout-then-close", rDialNegTimeoutClose: "dial-with-negative-timeout-then-close", rDialTwoOptionsClose: "dial-with-two-options-then-close"}
+var c18RealNames = map[int]string{rDialOk: "dial-ok", rDialFail: "dial-fail", rCmdOk: "cmd-ok", rCmdLostThenOk: "cmd-lost-then-ok", rTransportClose: "transport-close", rNSOk: "new-session-ok", rSessClose: "session-close", rDialZeroTimeoutClose: "dial-with-zero-timeout-then-close", rDialNegTimeoutClose: "dial-with-negative-timeout-then-close", rDialTwoOptionsClose: "dial-with-two-options-then-close", rDialAnyLiveCtxClose: "version-agnostic-dial-then-close", rDialAnyDoneCtxClose: "version-agnostic-dial-with-a-done-context-then-close"}
 
 func c18Names(ops []int) []string {
 	var out []string
 	for _, o := range ops {
-		if o < len(c18OpNames) {
+		if o >= 1000 {
+			out = append(out, fmt.Sprintf("cmd-answered-with-code-%#02x", o-1000))
+		} else if o < len(c18OpNames) {
 			out = append(out, c18OpNames[o])
 		} else {
 			out = append(out, c18RealNames[o])
@@ -107,7 +111,16 @@ func gather() (map[string]float64, error) {
 		for _, m := range mf.GetMetric() {
 			var ls []string
 			for _, l := range m.GetLabel() {
-				ls = append(ls, l.GetName()+"="+l.GetValue())
+				v := l.GetValue()
+				if name == "bmc_command_responses_total" && l.GetName() == "code" {
+					// the label names the code as 0xNN followed by a description in
+					// brackets; only the code is compared (an empty or otherwise
+					// shaped label then matches no expectation)
+					if k := strings.Index(v, "("); k >= 0 {
+						v = v[:k]
+					}
+				}
+				ls = append(ls, l.GetName()+"="+v)
 			}
 			key := name + "{" + strings.Join(ls, ",") + "}"
 			switch {
@@ -134,7 +147,7 @@ func (e expect) account(name string, transmissions int, codes []byte, failed boo
 		e.add("bmc_command_retries_total{}", float64(transmissions-1))
 	}
 	for _, c := range codes {
-		e.add("bmc_command_responses_total{code="+ipmi.CompletionCode(c).String()+"}", 1)
+		e.add(fmt.Sprintf("bmc_command_responses_total{code=%#.2x}", c), 1)
 	}
 	if failed {
 		e.add("bmc_command_failures_total{command="+name+"}", 1)
@@ -261,6 +274,12 @@ func c18One(c c18Case) (string, string) {
 			runCmd("Get Device ID", &ipmi.GetDeviceIDCmd{}, nil, false)
 		case kCmdC1:
 			runCmd("Get Device ID", &ipmi.GetDeviceIDCmd{}, []env.Answer{env.Code("c1", 0xC1)}, false)
+		case -1:
+			// op codes 1000+cc: a command answered with completion code cc
+		default:
+			if op >= 1000 && op < 1256 {
+				runCmd("Chassis Control", &ipmi.ChassisControlCmd{}, []env.Answer{env.Code("code", byte(op-1000))}, false)
+			}
 		case kCmdNoBodyC1:
 			runCmd("Chassis Control", &ipmi.ChassisControlCmd{}, []env.Answer{env.Code("c1", 0xC1)}, false)
 		case kCmdBusyOk:
@@ -438,6 +457,23 @@ func c18Real(c c18Case) (string, string) {
 				conn.Close()
 				exp.add("bmc_connections_open{version=2.0}", -1)
 			}
+		case rDialAnyLiveCtxClose, rDialAnyDoneCtxClose:
+			// the version-agnostic Dial: every call is an open attempt, whatever
+			// the state of the context it is given
+			dctx, dcancel := context.WithCancel(context.Background())
+			if op == rDialAnyDoneCtxClose {
+				dcancel()
+			}
+			conn, err := bmc.Dial(dctx, u.addr())
+			dcancel()
+			exp.add("bmc_connection_open_attempts_total{version=2.0}", 1)
+			if err != nil {
+				exp.add("bmc_connection_open_failures_total{version=2.0}", 1)
+			} else {
+				exp.add("bmc_connections_open{version=2.0}", 1)
+				conn.Close()
+				exp.add("bmc_connections_open{version=2.0}", -1)
+			}
 		case rDialFail:
 			_, err := bmc.DialV2("256.0.0.1:notaport")
 			exp.add("bmc_connection_open_attempts_total{version=2.0}", 1)
@@ -589,8 +625,13 @@ func runC18(r *rep.R) {
 			do(c18Case{Ops: h})
 		}
 	}
+	// every completion code, outside and inside a session
+	for cc := 1; cc < 256; cc++ {
+		do(c18Case{Ops: []int{1000 + cc}})
+		do(c18Case{Ops: []int{kNSOk, 1000 + cc, kCloseOk}})
+	}
 	// dial / transport close histories
-	realOps := []int{rDialOk, rDialFail, rCmdOk, rCmdLostThenOk, rNSOk, rSessClose, rTransportClose, rDialZeroTimeoutClose, rDialNegTimeoutClose, rDialTwoOptionsClose}
+	realOps := []int{rDialOk, rDialFail, rCmdOk, rCmdLostThenOk, rNSOk, rSessClose, rTransportClose, rDialZeroTimeoutClose, rDialNegTimeoutClose, rDialTwoOptionsClose, rDialAnyLiveCtxClose, rDialAnyDoneCtxClose}
 	var genR func(cur []int)
 	depthR := 3
 	if thorough(r) {
